@@ -23,6 +23,8 @@ open Femio.C05
 #print axioms C05_unwind_extends_plan
 #print axioms C05_interrupted_read_transparent
 #print axioms C05_unwind_counterexample_marker_in_finally
+#print axioms C05_staged_sorted_counterexample
+#print axioms C05_staged_marker_last_good
 open Femio.C05K
 #print axioms split_join
 #print axioms C05_keys_attr_roundtrip
